@@ -56,10 +56,23 @@ def compile_spec(ctx, src="e2.cxx", exe="e2", flags=""):
     return out, None
 
 
-def solve(f, timeout, want_model=False):
-    """portfolio; returns (status, backend, time, model_text)"""
+ALGEBRA = os.path.join(HERE, "algebra.py")
+
+
+def solve(f, timeout, want_model=False, hints=None):
+    """portfolio; returns (status, backend, time, model_text). The exact algebraic back end goes first: it discharges goals that
+    are polynomial / rational identities modulo the root relations in a fraction of a second, and never refutes."""
     total = 0.0
     last = "unknown"
+    out, t = _run("python3-vt %s %s" % (ALGEBRA, f), min(timeout, 120))
+    total += t
+    if out.strip().split("\n", 1)[0].strip() == "unsat":
+        return "unsat", "algebra(sympy-1.14 exact polynomial arithmetic)", total, ""
+    if hints and "does not reduce to zero" in out:
+        st, t, model = guided_refutation(f, hints)
+        total += t
+        if st == "sat":
+            return "sat", "z3-5.1 (inputs fixed to a model of pre /\\ path)", total, model
     for name, cmd, mcmd in SOLVERS:
         out, t = _run(cmd.format(f=f), timeout)
         total += t
@@ -75,6 +88,32 @@ def solve(f, timeout, want_model=False):
             return "sat", name, total, model
         last = first or "no answer"
     return "unknown(%s)" % last[:40], "portfolio", total, ""
+
+
+def input_hints(model_txt, varmap):
+    """From a model of `pre /\\ path` (the reachability query): `(assert (= nK <exact rational>))` for the input variables.
+    Fixing the inputs turns the refutation of a false identity into a plain evaluation for the solver; a `sat` answer to the
+    constrained query is a `sat` answer to the original one (sound for refutation, says nothing when it is unsat)."""
+    hints = []
+    for m in re.finditer(r"\(define-fun\s+(n\d+)\s+\(\)\s+Real\s+(.*?)\)\s*(?=\(define-fun|\)\s*$)", model_txt, re.S):
+        name, body = m.group(1), " ".join(m.group(2).split())
+        if "root-obj" in body or "?" in body or (varmap is not None and name not in varmap):
+            continue
+        hints.append("(assert (= %s %s))" % (name, body))
+    return hints
+
+
+def guided_refutation(f, hints, timeout=30):
+    if not hints:
+        return None, 0.0, ""
+    txt = open(f).read()
+    g = f[:-5] + ".guided.smt2"
+    open(g, "w").write(txt.replace("(check-sat)", "\n".join(hints) + "\n(check-sat)", 1))
+    out, t = _run("z3-new -smt2 %s" % g, timeout)
+    if out.strip().startswith("sat"):
+        out2, _ = _run("z3-new pp.decimal=true pp.decimal_precision=20 -smt2 %s" % g, timeout)
+        return "sat", t, out2 if out2.strip().startswith("sat") else out
+    return None, t, ""
 
 
 def parse_model(txt):
@@ -123,7 +162,8 @@ def _eval(s):
 def run_spec(ctx, src="e2.cxx", exe="e2", prefix_filter="", flags="", per_timeout=None, expect_min=1, reach_timeout=60):
     ctx.trust("g++ 12.2 front end and template instantiation (the verified text is the unmodified /repo header code, instantiated at vsym::sym)",
               "vsym (engines/symvc/vsym: term-building scalar, path scheduler, SMT-LIB emitter) and the TFEL trait specialisations for it",
-              "SMT solvers z3 5.1 / cvc5 1.0.3 / z3 4.8.12 (an `unsat` answer from any one discharges the obligation)")
+              "SMT solvers z3 5.1 / cvc5 1.0.3 / z3 4.8.12 (an `unsat` answer from any one discharges the obligation)",
+              "algebraic back end engines/symvc/algebra.py (sympy 1.14 exact polynomial arithmetic over Q): equalities are discharged when the numerator of lhs - rhs reduces to zero modulo the root relations and equality hypotheses (ideal membership), plus uniqueness of real k-th roots; it never refutes")
     ctx.assume("machine arithmetic treated as mathematical: obligations are proved over the reals (no rounding, overflow or NaN)",
                "floating-point literals are read as the simplest rational that rounds to them (0.1 -> 1/10)")
     binp, err = compile_spec(ctx, src, exe, flags)
@@ -156,6 +196,7 @@ def run_spec(ctx, src="e2.cxx", exe="e2", prefix_filter="", flags="", per_timeou
         for e in ents:
             if e["kind"] == "error":
                 res.append(("ob", Obligation("%s/%s/%s/*" % (ctx.pid, c, pth), UNDECIDED, "vsym", 0, e.get("error", "error"))))
+        hints = None
         if reach:
             feasible, t = None, 0.0
             for _name, cmd, _m in SOLVERS[:2]:  # vacuity / feasibility query: any solver may answer
@@ -164,6 +205,24 @@ def run_spec(ctx, src="e2.cxx", exe="e2", prefix_filter="", flags="", per_timeou
                 first = out.strip().split("\n", 1)[0] if out.strip() else ""
                 if first in ("sat", "unsat"):
                     feasible = first == "sat"
+                    if feasible and _name.startswith("z3"):
+                        vm = None
+                        for e2 in ents:
+                            if e2.get("vars"):
+                                vm = e2["vars"]
+                                break
+                        hints = input_hints(out, vm)
+                        if vm:
+                            # a generic point is more telling than the solver's favourite zeros: same query with pairwise distinct, non-zero inputs
+                            gf = reach[0]["file"][:-5] + ".generic.smt2"
+                            names = sorted(vm, key=lambda x: int(x[1:]))
+                            extra = "(assert (distinct %s 0 1 (- 1) 2 (/ 1 2)))\n" % " ".join(names) if len(names) >= 1 else ""
+                            open(gf, "w").write(open(reach[0]["file"]).read().replace("(check-sat)", extra + "(check-sat)", 1))
+                            out2, _t2 = _run("z3-new -smt2 %s" % gf, 15)
+                            if out2.strip().startswith("sat"):
+                                h2 = input_hints(out2, vm)
+                                if len(h2) >= len(hints):
+                                    hints = h2
                     break
             res.append(("reach", (c, pth, feasible, t)))
         for e in ents:
@@ -173,7 +232,7 @@ def run_spec(ctx, src="e2.cxx", exe="e2", prefix_filter="", flags="", per_timeou
             if feasible is False:
                 res.append(("vacuous", nm))
                 continue
-            st, be, t, model = solve(e["file"], tmo)
+            st, be, t, model = solve(e["file"], tmo, hints=hints)
             vc = os.path.relpath(e["file"], ctx.verif)
             if st == "unsat":
                 res.append(("ob", Obligation(nm, DISCHARGED, be, t, "", vc=vc)))
